@@ -11,7 +11,9 @@
 package main
 
 import (
+	"archive/tar"
 	"bytes"
+	"compress/gzip"
 	"fmt"
 	"io"
 	"os"
@@ -33,11 +35,15 @@ type node struct {
 }
 
 type request struct {
-	Op        string `json:"op"` // upload | download | list | stat | chmod | delete
+	Op        string `json:"op"`   // upload | download | list | stat | chmod | delete
 	Path      string `json:"path"` // "@" stands for the scratch root
 	Data      string `json:"data,omitempty"`
 	Mode      string `json:"mode,omitempty"`
 	Recursive bool   `json:"recursive,omitempty"`
+	// request metadata that is independent of what the path designates
+	IsDir    bool  `json:"is_directory,omitempty"` // TransferMetadata.IsDirectory (upload: the data is a tar.gz of the single file u.txt)
+	Compress bool  `json:"compress,omitempty"`     // TransferMetadata.Compress
+	Offset   int64 `json:"offset,omitempty"`       // TransferMetadata.Offset (> 0: resume, ReadFileForDownloadAtOffset)
 }
 
 type kase struct {
@@ -45,6 +51,8 @@ type kase struct {
 	Tree    []node   `json:"tree"`
 	Allowed []string `json:"allowed"` // "@" stands for the scratch root
 	Req     request  `json:"req"`
+	// requests carried out before Req on the SAME handler and tree (op "roots" included)
+	Pre []request `json:"pre,omitempty"`
 }
 
 func baseTree() []node {
@@ -181,21 +189,84 @@ func validationText(msg string) bool {
 	return false
 }
 
+func gz(b []byte) []byte {
+	var buf bytes.Buffer
+	w := gzip.NewWriter(&buf)
+	w.Write(b)
+	w.Close()
+	return buf.Bytes()
+}
+
+func tarOf(name, data string) []byte {
+	var buf bytes.Buffer
+	zw := gzip.NewWriter(&buf)
+	tw := tar.NewWriter(zw)
+	tw.WriteHeader(&tar.Header{Name: name, Typeflag: tar.TypeReg, Mode: 0o644, Size: int64(len(data))})
+	tw.Write([]byte(data))
+	tw.Close()
+	zw.Close()
+	return buf.Bytes()
+}
+
+// tarNames: the entry names of a tar.gz stream, sorted
+func tarNames(b []byte) string {
+	zr, err := gzip.NewReader(bytes.NewReader(b))
+	if err != nil {
+		return "?" + err.Error()
+	}
+	tr := tar.NewReader(zr)
+	var names []string
+	for {
+		h, err := tr.Next()
+		if err != nil {
+			break
+		}
+		names = append(names, strings.TrimSuffix(h.Name, "/"))
+	}
+	sort.Strings(names)
+	return strings.Join(names, ";")
+}
+
 func run(h *filetransfer.StreamHandler, root string, rq request) (res result) {
 	path := expand(rq.Path, root)
 	stripTargets := func(s string) string { return strings.ReplaceAll(s, root, "") }
 	switch rq.Op {
+	case "roots":
+		resp := h.Browse(&filetransfer.BrowseRequest{Action: "roots"})
+		if resp.Error != "" {
+			code := 2
+			if validationText(resp.Error) {
+				code = 1
+			}
+			return result{Code: code, Msg: stripTargets(resp.Error)}
+		}
+		rs := make([]string, len(resp.Roots))
+		for i, r := range resp.Roots {
+			rs[i] = stripTargets(r)
+			if rs[i] == "" {
+				rs[i] = "/"
+			}
+		}
+		return result{Payload: strings.Join(rs, ";")}
 	case "upload":
-		meta := &filetransfer.TransferMetadata{Path: path, Mode: 0o644, Size: int64(len(rq.Data))}
+		// as the agent does: ValidateUploadMetadata on the first frame, WriteUploadedFile with the metadata's fields at the end
+		meta := &filetransfer.TransferMetadata{Path: path, Mode: 0o644, Size: int64(len(rq.Data)), IsDirectory: rq.IsDir, Compress: rq.Compress}
 		if err := h.ValidateUploadMetadata(meta); err != nil {
 			return result{Code: 1, Msg: stripTargets(err.Error())}
 		}
-		if _, err := h.WriteUploadedFile(path, strings.NewReader(rq.Data), 0o644, false, false); err != nil {
+		body := []byte(rq.Data)
+		if rq.IsDir {
+			body = tarOf("u.txt", rq.Data)
+		} else if rq.Compress {
+			body = gz(body)
+		}
+		if _, err := h.WriteUploadedFile(meta.Path, bytes.NewReader(body), meta.Mode, meta.IsDirectory, meta.Compress); err != nil {
 			return result{Code: 2, Msg: stripTargets(err.Error())}
 		}
 		return result{}
 	case "download":
-		meta := &filetransfer.TransferMetadata{Path: path}
+		// as the agent does: ValidateDownloadMetadata on the first frame; Offset > 0 selects the resume entry point
+		meta := &filetransfer.TransferMetadata{Path: path, IsDirectory: rq.IsDir, Compress: rq.Compress, Offset: rq.Offset}
 		if err := h.ValidateDownloadMetadata(meta); err != nil {
 			code := 2
 			if validationText(err.Error()) {
@@ -203,7 +274,17 @@ func run(h *filetransfer.StreamHandler, root string, rq request) (res result) {
 			}
 			return result{Code: code, Msg: stripTargets(err.Error())}
 		}
-		r, _, _, isDir, err := h.ReadFileForDownload(path, false)
+		var r io.Reader
+		var isDir bool
+		var err error
+		if meta.Offset > 0 {
+			if _, serr := os.Stat(meta.Path); serr != nil {
+				return result{Code: 2, Msg: stripTargets(serr.Error())}
+			}
+			r, _, _, isDir, err = h.ReadFileForDownloadAtOffset(meta.Path, meta.Offset, meta.Compress)
+		} else {
+			r, _, _, isDir, err = h.ReadFileForDownload(meta.Path, meta.Compress)
+		}
 		if err != nil {
 			return result{Code: 2, Msg: stripTargets(err.Error())}
 		}
@@ -212,7 +293,14 @@ func run(h *filetransfer.StreamHandler, root string, rq request) (res result) {
 			cl.Close()
 		}
 		if isDir {
-			return result{Payload: "<directory>"} // a tar.gz stream of the directory
+			return result{Payload: "<directory>:" + tarNames(b)} // a tar.gz stream of the directory
+		}
+		if meta.Compress {
+			zr, zerr := gzip.NewReader(bytes.NewReader(b))
+			if zerr != nil {
+				return result{Code: 2, Msg: "gunzip: " + zerr.Error()}
+			}
+			b, _ = io.ReadAll(zr)
 		}
 		return result{Payload: string(b)}
 	default:
@@ -251,7 +339,7 @@ var interesting = []string{"allowed", "allowed/pub.txt", "allowed/sub", "allowed
 	"allowed/dangling", "allowed/sub/up", "allowed/sub/up/pub.txt", "allowed/sub/up/link/secret.txt", "allowed/sub/out2", "allowed/sub/out2/s2.txt",
 	"allowed/loop", "allowed/pubref", "allowed/link/back", "allowed/link/back/pub.txt", "allowed/new.txt", "allowed/newdir/new.txt", "allowed/link/new.txt",
 	"allowed/link/newdir/new.txt", "allowed/sub/new.txt", "allowed/hop1", "allowed/hop0", "allowed/dhop1", "allowed/dhop1/s2.txt", "allowed/inhop1", "allowed/hop2", "allowed/pub.txt/x", "allowed/link/..", "allowed/link/../outside/secret.txt", "allowed/sub/../pub.txt",
-	"allowed/link/../allowed2/x.txt", "allowed/sub/up/../pub.txt", "outside/secret.txt", "outside/back/pub.txt", "allowed2/x.txt", "allowedevil/e.txt", "allowed/a..b"}
+	"allowed/link/../allowed2/x.txt", "allowed/sub/up/../pub.txt", "allowed/sub/up/../outside/secret.txt", "allowed/sub/up/../allowed2/x.txt", "allowed/sub/up/../allowedevil/e.txt", "allowed/inlink/../pub.txt", "outside/secret.txt", "outside/back/pub.txt", "allowed2/x.txt", "allowedevil/e.txt", "allowed/a..b"}
 
 func genPath(r *vh.Rand) string {
 	if r.Chance(3, 5) {
@@ -310,6 +398,12 @@ func genAllowed(r *vh.Rand) []string {
 		return []string{"@/allowed/"}
 	case 13:
 		return []string{"@/outside/../allowed"}
+	case 14:
+		return []string{"@/allowed/s*", "@/allowed2/x*"}
+	case 15:
+		return []string{"@/allowed/*/deep.txt"}
+	case 16:
+		return []string{"@/*/sub"}
 	}
 	return []string{"@/allowed"}
 }
@@ -349,7 +443,44 @@ func genCase(r *vh.Rand) kase {
 	case "delete":
 		k.Req.Recursive = r.Chance(1, 2)
 	}
+	randomMeta(r, &k.Req)
+	// histories on one handler: browse requests (roots first) and other operations before the request
+	if r.Chance(1, 3) {
+		n := 1 + r.Intn(2)
+		for i := 0; i < n; i++ {
+			var p request
+			switch r.Intn(5) {
+			case 0, 1:
+				p = request{Op: "roots"}
+			case 2:
+				p = request{Op: "list", Path: "@/allowed"}
+			case 3:
+				p = request{Op: "stat", Path: genPath(r)}
+			default:
+				p = request{Op: []string{"upload", "download", "delete", "chmod"}[r.Intn(4)], Path: genPath(r), Data: "P", Mode: "0640"}
+			}
+			if p.Op != "roots" && !insideScratch(p.Path) {
+				p.Path = "@/allowed/pub.txt"
+			}
+			k.Pre = append(k.Pre, p)
+		}
+	}
 	return k
+}
+
+// randomMeta sets the metadata fields of a transfer request independently of what its path designates
+func randomMeta(r *vh.Rand, rq *request) {
+	switch rq.Op {
+	case "download":
+		rq.IsDir = r.Chance(1, 3)
+		rq.Compress = r.Chance(1, 3)
+		if r.Chance(1, 3) {
+			rq.Offset = []int64{1, 2, 3, 6, 1000}[r.Intn(5)]
+		}
+	case "upload":
+		rq.IsDir = r.Chance(1, 6)
+		rq.Compress = r.Chance(1, 3)
+	}
 }
 
 func witnesses() []kase {
@@ -380,6 +511,22 @@ func witnesses() []kase {
 		mk("recursive delete through a link in a parent directory", request{Op: "delete", Path: "@/allowed/link/dir2", Recursive: true}),
 		mk("delete a link to a directory", request{Op: "delete", Path: "@/allowed/link", Recursive: true}),
 		{Note: "upload below an allowed root that does not exist yet", Tree: links, Allowed: []string{"@/nonexistent/deep"}, Req: request{Op: "upload", Path: "@/nonexistent/deep/f.txt", Data: "UP"}},
+		mk("download of a link with is_directory set in the request", request{Op: "download", Path: "@/allowed/flink", IsDir: true}),
+		mk("compressed download of a link with is_directory set", request{Op: "download", Path: "@/allowed/flink", IsDir: true, Compress: true}),
+		mk("download of a directory link with is_directory set", request{Op: "download", Path: "@/allowed/link", IsDir: true}),
+		mk("resume download: '..' after a link to a shallower directory", request{Op: "download", Path: "@/allowed/sub/up/../outside/secret.txt", Offset: 2}),
+		mk("resume download through a link in a parent directory", request{Op: "download", Path: "@/allowed/link/secret.txt", Offset: 3}),
+		mk("resume download of a final-component link", request{Op: "download", Path: "@/allowed/flink", Offset: 1}),
+		mk("compressed download", request{Op: "download", Path: "@/allowed/sub/deep.txt", Compress: true}),
+		mk("resume download", request{Op: "download", Path: "@/allowed/sub/deep.txt", Offset: 2, Compress: true}),
+		mk("directory download (tar stream)", request{Op: "download", Path: "@/allowed", IsDir: true}),
+		mk("directory upload", request{Op: "upload", Path: "@/allowed/updir", Data: "UP", IsDir: true}),
+		mk("directory upload through a link", request{Op: "upload", Path: "@/allowed/link/updir", Data: "UP", IsDir: true}),
+		mk("compressed upload", request{Op: "upload", Path: "@/allowed/z.txt", Data: "UP", Compress: true}),
+		{Note: "roots, then a request under a pattern's base that the pattern does not match", Tree: links, Allowed: []string{"@/allowed/s*"}, Pre: []request{{Op: "roots"}}, Req: request{Op: "download", Path: "@/allowed/pub.txt"}},
+		{Note: "roots with two glob patterns, then delete under a base", Tree: links, Allowed: []string{"@/allowed2/x*", "@/allowed/s*"}, Pre: []request{{Op: "roots"}, {Op: "list", Path: "@/allowed"}}, Req: request{Op: "delete", Path: "@/allowed/pub.txt"}},
+		{Note: "roots with a glob in the middle, then upload next to the match", Tree: links, Allowed: []string{"@/*/sub"}, Pre: []request{{Op: "roots"}, {Op: "roots"}}, Req: request{Op: "upload", Path: "@/outside/new.txt", Data: "UP"}},
+		{Note: "roots on '*'", Tree: links, Allowed: []string{"*"}, Pre: []request{{Op: "roots"}}, Req: request{Op: "stat", Path: "@/outside/secret.txt"}},
 		mk("lexical traversal", request{Op: "download", Path: "@/allowed/../outside/secret.txt"}),
 		mk("prefix bypass", request{Op: "download", Path: "@/allowedevil/e.txt"}),
 		{Note: "empty allow list", Tree: links, Allowed: []string{}, Req: request{Op: "download", Path: "@/allowed/pub.txt"}},
@@ -487,7 +634,7 @@ func linkPosition(root, p string) string {
 func main() {
 	c := vh.Start("C26")
 	defer c.Finish()
-	c.Res.Rule = "case = one request (upload, download, list, stat, chmod, delete) with one allowed_paths configuration on a scratch tree with an allowed area, " +
+	c.Res.Rule = "case = a history of 1-3 requests on one handler (upload file/directory, download incl. compressed, resume and directory downloads, list, stat, chmod, delete, roots; metadata fields varied independently of the tree) with one allowed_paths configuration on a scratch tree with an allowed area, " +
 		"an outside area and symbolic links between them; verdict, result, returned data and the complete resulting tree are compared with the model; " +
 		"non-trivial = the request passes the lexical validation; distinct = distinct (tree, config, request)"
 
@@ -523,64 +670,93 @@ func main() {
 		for j, a := range k.Allowed {
 			allowed[j] = expand(a, root)
 		}
+		// the monitor keeps its own copy of the configuration: the handler is given a slice it may (must not) write to
+		orig := append([]string{}, allowed...)
 		h := filetransfer.NewStreamHandler(filetransfer.StreamConfig{Enabled: true, AllowedPaths: allowed})
-		reqPath := expand(k.Req.Path, root)
-		// what the request really designates, computed before it runs
-		real := realPath(reqPath)
-		pos := linkPosition(root, reqPath)
-		if k.Req.Op == "download" && pos == "final-link" && (strings.HasSuffix(reqPath, "/.") || strings.HasSuffix(reqPath, "/")) {
-			// "link/." and "link/" make Lstat follow the link, so validateSymlinkTarget sees a directory, not a link
-			pos = "final-link-via-trailing-dot"
-		}
-		before := snapshot(root)
-		var res result
-		pan := vh.Recover(func() { res = run(h, root, k.Req) })
-		after := snapshot(root)
-
-		c.Count(fmt.Sprintf("op/%s/code=%d", k.Req.Op, res.Code))
-		rep := map[string]any{"note": k.Note, "tree": k.Tree, "allowed": k.Allowed, "req": k.Req, "result": res, "real": strings.TrimPrefix(real, root), "position": pos}
-		c.Case(fmt.Sprintf("%v|%v|%v", k.Tree, k.Allowed, k.Req), res.Code != 1, rep)
-		if pan != "" {
-			c.Fail("filetransfer-panic", k.Req.Op+" panicked: "+pan, k)
-		}
-
-		// ---- monitor: a request that was carried out touched `real`; that object must be allowed
-		escaped := false
-		if res.Code == 0 && !allowedLexically(allowed, real) {
-			escaped = true
-			sig := fmt.Sprintf("ft-escape:%s:%s", k.Req.Op, pos)
-			if len(allowed) == 0 {
-				sig = "ft-empty-allowlist-touched:" + k.Req.Op
+		steps := append(append([]request{}, k.Pre...), k.Req)
+		first := snapshot(root)
+		before := first
+		var stepTerms []string
+		var results []result
+		nontrivial := false
+		for si, rq := range steps {
+			kk := k // the failing history: the steps up to and including this one
+			kk.Pre, kk.Req = steps[:si], rq
+			reqPath := expand(rq.Path, root)
+			// what the request really designates, computed before it runs
+			real := realPath(reqPath)
+			pos := linkPosition(root, reqPath)
+			if rq.Op == "download" && pos == "final-link" && (strings.HasSuffix(reqPath, "/.") || strings.HasSuffix(reqPath, "/")) {
+				// "link/." and "link/" make Lstat follow the link, so validateSymlinkTarget sees a directory, not a link
+				pos = "final-link-via-trailing-dot"
 			}
-			c.Fail(sig, fmt.Sprintf("%s %s was carried out on %s, which is outside allowed_paths %v", k.Req.Op, k.Req.Path, strings.TrimPrefix(real, root), k.Allowed), k)
-		}
-		// effects outside every allowed area (independent of the resolution above)
-		diffOutside(c, k, allowed, root, before, after, res, pos)
-		if len(allowed) == 0 && res.Code == 0 {
-			c.Fail("ft-empty-allowlist-touched:"+k.Req.Op, "a request was carried out although allowed_paths is empty", k)
+			var res result
+			pan := vh.Recover(func() { res = run(h, root, rq) })
+			after := snapshot(root)
+			results = append(results, res)
+			c.Count(fmt.Sprintf("op/%s/code=%d", rq.Op, res.Code))
+			if rq.IsDir || rq.Compress || rq.Offset > 0 {
+				c.Count(fmt.Sprintf("meta/%s/dir=%v,gz=%v,off=%v", rq.Op, rq.IsDir, rq.Compress, rq.Offset > 0))
+			}
+			if res.Code != 1 {
+				nontrivial = true
+			}
+			if pan != "" {
+				c.Fail("filetransfer-panic", rq.Op+" panicked: "+pan, kk)
+			}
+			// ---- monitor: a request that was carried out touched `real`; that object must be allowed (by the ORIGINAL configuration)
+			escaped := false
+			if rq.Op != "roots" {
+				if res.Code == 0 && !allowedLexically(orig, real) {
+					escaped = true
+					sig := fmt.Sprintf("ft-escape:%s:%s", rq.Op, pos)
+					if len(orig) == 0 {
+						sig = "ft-empty-allowlist-touched:" + rq.Op
+					}
+					c.Fail(sig, fmt.Sprintf("%s %s was carried out on %s, which is outside allowed_paths %v", rq.Op, rq.Path, strings.TrimPrefix(real, root), k.Allowed), kk)
+				}
+				// effects outside every allowed area (independent of the resolution above)
+				diffOutside(c, kk, orig, root, before, after, res, pos)
+				if len(orig) == 0 && res.Code == 0 {
+					c.Fail("ft-empty-allowlist-touched:"+rq.Op, "a request was carried out although allowed_paths is empty", kk)
+				}
+			}
+			if (rq.Op == "download" || rq.Op == "list" || rq.Op == "stat" || rq.Op == "roots") && !sameTree(before, after) {
+				c.Fail("ft-read-request-changed-tree", rq.Op+" changed the file system", kk)
+			}
+			// the configuration the handler was given is still what it was
+			for j := range orig {
+				if allowed[j] != orig[j] {
+					c.Fail("ft-policy-changed-by-request", fmt.Sprintf("after %s %s the handler's allowed_paths[%d] reads %q instead of %q", rq.Op, rq.Path, j,
+						strings.ReplaceAll(allowed[j], root, "@"), strings.ReplaceAll(orig[j], root, "@")), kk)
+					break
+				}
+			}
+			chmodded := ""
+			bm := map[string]obj{}
+			for _, o := range before {
+				bm[o.Path] = o
+			}
+			for _, o := range after {
+				if b, ok := bm[o.Path]; ok && b.Perm != o.Perm && o.Kind != "sym" {
+					chmodded = o.Path
+				}
+			}
+			stepTerms = append(stepTerms, fmt.Sprintf("(%s, (%d%%N, %s, %s, %s))", coqReq(rq), res.Code, in.S(res.Payload), in.S(chmodded), vh.CoqBool(escaped)))
+			before = after
 		}
 		os.RemoveAll(root)
-
-		chmodded := ""
-		bm := map[string]obj{}
-		for _, o := range before {
-			bm[o.Path] = o
+		rep := map[string]any{"note": k.Note, "tree": k.Tree, "allowed": k.Allowed, "pre": k.Pre, "req": k.Req, "results": results}
+		c.Case(fmt.Sprintf("%v|%v|%v|%v", k.Tree, k.Allowed, k.Pre, k.Req), nontrivial, rep)
+		if len(steps) > 1 {
+			c.Count(fmt.Sprintf("history-length/%d", len(steps)))
 		}
-		for _, o := range after {
-			if b, ok := bm[o.Path]; ok && b.Perm != o.Perm && o.Kind != "sym" {
-				chmodded = o.Path
-			}
+		// an unchanged tree is not sent to the model (which must then report an unchanged state as well)
+		final := "(Some " + coqSnap(before) + ")"
+		if sameTree(first, before) {
+			final = "None"
 		}
-		// reading requests must leave the tree as it was (checked here); the tree is
-		// then not sent to the model, which keeps the evaluation cheap
-		final := "(Some " + coqSnap(after) + ")"
-		if sameTree(before, after) {
-			final = "None" // the model must report an unchanged state as well
-		} else if k.Req.Op == "download" || k.Req.Op == "list" || k.Req.Op == "stat" {
-			c.Fail("ft-read-request-changed-tree", k.Req.Op+" changed the file system", k)
-		}
-		coq = append(coq, fmt.Sprintf("FCase %s %s %s %d%%N %s %s %s %s", coqTree(k.Tree), coqStrs(stripAt(k.Allowed)), coqReq(k.Req), res.Code,
-			in.S(res.Payload), in.S(chmodded), vh.CoqBool(escaped), final))
+		coq = append(coq, fmt.Sprintf("FCase %s %s %s %s", coqTree(k.Tree), coqStrs(stripAt(k.Allowed)), vh.CoqList(stepTerms), final))
 	}
 
 	var sb strings.Builder
@@ -675,18 +851,27 @@ func coqTreeList(nodes []node) string {
 func coqReq(r request) string {
 	p := coqText(strings.ReplaceAll(r.Path, "@", ""))
 	switch r.Op {
+	case "roots":
+		return "XRoots"
 	case "upload":
-		return fmt.Sprintf("(RUpload %s %s)", p, in.S(r.Data))
+		if r.IsDir {
+			return fmt.Sprintf("XUploadDir %s %s", p, in.S(r.Data))
+		}
+		return fmt.Sprintf("XBase (RUpload %s %s)", p, in.S(r.Data))
 	case "download":
-		return fmt.Sprintf("(RDownload %s)", p)
+		// is_directory and compress do not influence what is validated or read (source fact); offset > 0 selects the resume entry point
+		if r.Offset > 0 {
+			return fmt.Sprintf("XDownloadAt %s %d%%nat", p, r.Offset)
+		}
+		return fmt.Sprintf("XBase (RDownload %s)", p)
 	case "list":
-		return fmt.Sprintf("(RList %s)", p)
+		return fmt.Sprintf("XBase (RList %s)", p)
 	case "stat":
-		return fmt.Sprintf("(RStat %s)", p)
+		return fmt.Sprintf("XBase (RStat %s)", p)
 	case "chmod":
-		return fmt.Sprintf("(RChmod %s %s)", p, in.S(r.Mode))
+		return fmt.Sprintf("XBase (RChmod %s %s)", p, in.S(r.Mode))
 	}
-	return fmt.Sprintf("(RDelete %s %s)", p, vh.CoqBool(r.Recursive))
+	return fmt.Sprintf("XBase (RDelete %s %s)", p, vh.CoqBool(r.Recursive))
 }
 
 func coqSnap(objs []obj) string {
@@ -739,26 +924,34 @@ func diffOutside(c *vh.Ctx, k kase, allowed []string, root string, before, after
 	reqRel, _ := filepath.Rel(root, filepath.Clean(expand(k.Req.Path, root)))
 	for p, a := range am {
 		if _, ok := bm[p]; !ok && notAllowed(p) {
-			if k.Req.Op == "upload" && pos == "lexical" && a.Kind == "dir" && strings.HasPrefix(reqRel+"/", p+"/") && aboveAllowedRoot(k.Allowed, p) &&
+			if k.Req.Op == "upload" && pos == "lexical" && a.Kind == "dir" && strings.HasPrefix(reqRel+"/", p+"/") &&
 				allowedLexically(allowed, filepath.Join(root, reqRel)) {
-				// MkdirAll created a missing directory above the allowed root itself
+				// the uploaded file itself is allowed; MkdirAll created a missing parent directory that no pattern matches
+				// (above an allowed root that does not exist yet, or between a glob pattern's base and the file it matches)
 				c.Fail("ft-upload-creates-ancestors-of-allowed-root", fmt.Sprintf("upload %s created the missing directory %s, which lies above every allowed path", k.Req.Path, p), k)
 				continue
 			}
 			c.Fail(sigOf("created"), fmt.Sprintf("%s (not in allowed_paths) was created by %s %s", p, k.Req.Op, k.Req.Path), k)
 		}
 	}
-	if k.Req.Op == "download" && res.Code == 0 {
+	if k.Req.Op == "download" && res.Code == 0 && !strings.HasPrefix(res.Payload, "<directory>:") {
+		// what was returned is (the requested part of) the content of a file that is not allowed, and of no allowed file
+		part := func(data string) (string, bool) {
+			if k.Req.Offset > int64(len(data)) {
+				return "", false
+			}
+			return data[k.Req.Offset:], true
+		}
 		for p, b := range bm {
-			if b.Kind == "file" && b.Data == res.Payload && notAllowed(p) {
+			if d, ok := part(b.Data); b.Kind == "file" && ok && d == res.Payload && d != "" && notAllowed(p) {
 				same := false
 				for q, o := range bm {
-					if o.Kind == "file" && o.Data == res.Payload && !notAllowed(q) {
+					if d2, ok2 := part(o.Data); o.Kind == "file" && ok2 && d2 == res.Payload && !notAllowed(q) {
 						same = true
 					}
 				}
 				if !same {
-					c.Fail(sigOf("read"), fmt.Sprintf("download %s returned the content of %s (not in allowed_paths)", k.Req.Path, p), k)
+					c.Fail(sigOf("read"), fmt.Sprintf("download %s (offset %d) returned the content of %s (not in allowed_paths)", k.Req.Path, k.Req.Offset, p), k)
 				}
 			}
 		}
@@ -775,27 +968,6 @@ func sameTree(a, b []obj) bool {
 		}
 	}
 	return true
-}
-
-// aboveAllowedRoot: the (scratch-relative) directory p is a proper ancestor of
-// the literal base directory of some allowed pattern
-func aboveAllowedRoot(allowed []string, p string) bool {
-	for _, pat := range allowed {
-		if !strings.HasPrefix(pat, "@/") {
-			continue
-		}
-		var base []string
-		for _, c := range strings.Split(filepath.Clean(pat[2:]), "/") {
-			if strings.ContainsAny(c, "*?[") {
-				break
-			}
-			base = append(base, c)
-		}
-		if strings.HasPrefix(strings.Join(base, "/")+"/", p+"/") && strings.Join(base, "/") != p {
-			return true
-		}
-	}
-	return false
 }
 
 var in = fsutil.NewInterner()
